@@ -77,6 +77,29 @@ impl<T> SmallList<T> {
         *self.slot_mut(a) = y;
         *self.slot_mut(b) = x;
     }
+    /// takes the element out of slot i, leaving the slot empty (the caller puts it back or closes the gap)
+    pub fn take_at(&mut self, i: usize) -> Option<T> {
+        assert!(i < self.len);
+        self.slot_mut(i).take()
+    }
+    pub fn put_at(&mut self, i: usize, t: T) {
+        assert!(i < self.len);
+        *self.slot_mut(i) = Some(t);
+    }
+    /// slot i is empty: shift the tail down and shrink
+    pub fn close_gap(&mut self, i: usize) {
+        assert!(i < self.len);
+        let mut j = i;
+        for _ in 0..CAP {
+            if j + 1 >= self.len {
+                break;
+            }
+            let x = self.slot_mut(j + 1).take();
+            *self.slot_mut(j) = x;
+            j += 1;
+        }
+        self.len -= 1;
+    }
     pub fn get(&self, i: usize) -> Option<&T> {
         if i < self.len {
             self.slot(i).as_ref()
@@ -169,7 +192,8 @@ impl<T> SmallList<T> {
         Iter { list: self, pos: 0 }
     }
     pub fn iter_mut(&mut self) -> IterMut<'_, T> {
-        IterMut { list: self as *mut SmallList<T>, pos: 0, _m: std::marker::PhantomData }
+        let n = self.len;
+        IterMut { inner: self.slots.iter_mut().take(n) }
     }
 }
 
@@ -204,22 +228,14 @@ impl<'a, T> Iterator for Iter<'a, T> {
     }
 }
 pub struct IterMut<'a, T> {
-    list: *mut SmallList<T>,
-    pos: usize,
-    _m: std::marker::PhantomData<&'a mut T>,
+    inner: std::iter::Take<std::slice::IterMut<'a, Option<T>>>,
 }
 impl<'a, T> Iterator for IterMut<'a, T> {
     type Item = &'a mut T;
     fn next(&mut self) -> Option<&'a mut T> {
-        // each slot is handed out at most once
-        unsafe {
-            if self.pos < CAP && self.pos < (*self.list).len {
-                let r = (*self.list).slot_mut(self.pos).as_mut();
-                self.pos += 1;
-                r
-            } else {
-                None
-            }
+        match self.inner.next() {
+            Some(o) => o.as_mut(),
+            None => None,
         }
     }
 }
